@@ -411,7 +411,7 @@ fn bad_cast_case(rep: &mut Report) {
 pub fn run(args: &Args) -> i32 {
     let mut rep = Report::new(args);
     let small = args.has("--small");
-    let n = args.count(3200, 160_000);
+    let n = args.count(128_000, 1_600_000);
     let range: Vec<u64> = match args.case {
         Some(c) => vec![c],
         None => (0..n).collect(),
